@@ -321,3 +321,8 @@ package ledger
 //@     index j
 //@     invariant volumes.Input != nil && volumes.Output != nil
 //@     invariant offAsset_upto(postings, j, asset) == 0 ==> val(volumes.Input) == credits_upto(postings, j, account, asset) && val(volumes.Output) == debits_upto(postings, j, account, asset)
+
+// validAddr / validAsset mean "matches accounts.Pattern / assets.Pattern": the patterns themselves are pinned, so that a change
+// of what counts as a well-formed address or asset is reported instead of silently changing the meaning of C25/C28.
+//@ pin C25 C28 :: accounts.Pattern == "^[a-zA-Z0-9_-]+(:[a-zA-Z0-9_-]+)*$"
+//@ pin C25 C28 :: assets.Pattern == "[A-Z][A-Z0-9]{0,16}(_[A-Z]{1,16})?(\\/\\d{1,6})?"
